@@ -286,3 +286,12 @@ pub fn pick_index(sel: u16, len: usize) -> usize {
     }
     ((sel as usize) * len) >> 16
 }
+
+/// Uniform choice from a list. (Used instead of `prop::sample::select`, whose value tree forks the
+/// runner's RNG: with the byte-driven PassThrough RNG of the fuzz entry every fork halves the
+/// remaining entropy, which then runs dry after a dozen choices.)
+pub fn select<T: Clone + std::fmt::Debug + 'static>(items: Vec<T>) -> BoxedStrategy<T> {
+    let n = items.len();
+    assert!(n > 0);
+    (0..n).prop_map(move |i| items[i].clone()).boxed()
+}
